@@ -588,7 +588,9 @@ def rejected_leaves_unchanged(ctx: Ctx, rep: Report, rid: str = "R08.13", target
         for attr in attrs:
             stores = [nd for nd in cfg.live if store_of(nd, attr) is not None]
             rep.instance()
-            rep.require(bool(stores), f"{q} no longer stores self.{attr}")
+            if not stores:
+                rep.note(f"{rid} {q} does not store self.{attr} itself (moved into a helper?) - not judged")
+                continue
             for st in stores:
                 # saved copies of the old value: v = self.attr at a node that dominates the store
                 saved = set()
